@@ -24,6 +24,17 @@ from parglare.termui import a_print, h_print, prints, s_emph, s_header
 
 logger = logging.getLogger(__name__)
 
+# Verification hook (add-only, off unless PARGLARE_VERIF=1): with
+# PARGLARE_VERIF_MAX_STATES=n table construction raises VerifStateBudgetExceeded
+# once more than n states exist, so that divergence is decided by a state budget
+# instead of a wall clock.
+_VERIF = os.environ.get("PARGLARE_VERIF") == "1"
+
+
+class VerifStateBudgetExceeded(Exception):
+    pass
+
+
 
 SHIFT = 0
 REDUCE = 1
@@ -230,6 +241,11 @@ def create_table(
                 # We've found a new state. Register it for later processing.
                 state_queue.append(target_state)
                 state_id += 1
+                if _VERIF:
+                    _budget = int(os.environ.get("PARGLARE_VERIF_MAX_STATES", "0") or 0)
+                    if 0 < _budget < state_id:
+                        grammar.productions[0].rhs = _old_start_production_rhs
+                        raise VerifStateBudgetExceeded(state_id)
 
             # Create entries in GOTO and ACTION tables
             if isinstance(symbol, NonTerminal):
